@@ -27,7 +27,7 @@ UNITS = {
 PROPS = {
     'C03': dict(
         units=[('codec_mut', r'(with_capacity|read_push|push_null|Version\.|impl Version)'), ('event', r'(parse_event__(pre|post|start|item|end)|C03)')],
-        kani=[],
+        kani=['kshim_byteorder_be'],
     ),
     'C01': dict(
         units=[('ser', r'(write|payload_sizes|gecko_codes|game_start|game_end|PayloadSizes|frame_counts|C01|Frame::len)'),
@@ -35,7 +35,7 @@ PROPS = {
                ('codec_mut', r'(read_push|with_capacity|push_null)'),
                ('event', r'(C04\.|C03\.|C12\.|parse_event__(pre|post|start|item|end|other|splitter)|frame_close$|frame_open)'),
                ('reader', r'(^read$|^parse_start|C12\.)')],
-        kani=[],
+        kani=['kshim_byteorder_be', 'kshim_byteorder_write_be'],
     ),
     'C16': dict(
         units=[('ubjson', r'(C16|write_utf8|write_map|to_utf8|to_val|to_key|read_map|lemma_)'), ('reader', r'(C16|^parse_metadata)'), ('ser', r'(C01\.file_layout)')],
@@ -85,7 +85,7 @@ PROPS = {
     ),
     'C20': dict(
         units=[('codec_mut', r'(Version)'), ('verstr', r'(from_str|fmt|lemma_display|C20)')],
-        kani=['c20_version_gte_lt', 'c20_gate_monotone'],
+        kani=['c20_version_gte_lt', 'c20_gate_monotone', 'c20_parse_u8_len4'],
     ),
     'C15': dict(
         units=[('rollback', r'(rollbacks|C15|Frame::len)')],
